@@ -57,6 +57,7 @@ type Run struct {
 	caseTy    string   // Coq type of a case (for the list annotation)
 	cases     []string // Coq terms
 	caseIDs   int
+	caseBytes int
 	perFile   int
 	files     int
 	Evals     int
@@ -100,7 +101,8 @@ func (r *Run) NextID() int { r.caseIDs++; return r.caseIDs }
 func (r *Run) AddCase(term string, desc string) {
 	r.cases = append(r.cases, term)
 	r.descs = append(r.descs, desc)
-	if len(r.cases) >= r.perFile {
+	r.caseBytes += len(term)
+	if len(r.cases) >= r.perFile || r.caseBytes > 400000 {
 		r.flush()
 	}
 }
@@ -120,6 +122,7 @@ func (r *Run) flush() {
 	}
 	r.files++
 	r.cases = r.cases[:0]
+	r.caseBytes = 0
 }
 
 // Count records one evaluation; key != "" marks it non-trivial and distinct by key.
